@@ -472,7 +472,7 @@ pub fn run(ctx: &Ctx) -> Report {
                     rep.counters.class("builtin ping".into());
                 }
                 1 => {
-                    cmds.push(Cmd::field_list(b"tbl\0"));
+                    cmds.push(Cmd::field_list(&field_list_arg(rng)));
                     rep.counters.class("builtin field_list".into());
                     preds.push(None);
                 }
@@ -882,7 +882,7 @@ pub fn rich_case(rng: &mut Rng, max_cmds: usize, sentinels: bool) -> (Case, Vec<
         match rng.below(10) {
             0 => cmds.push(Cmd::ping()),
             1 => {
-                cmds.push(Cmd::field_list(b"t\0"));
+                cmds.push(Cmd::field_list(&field_list_arg(rng)));
                 preds.push(None);
             }
             2 => {
